@@ -49,23 +49,27 @@ pub fn run(args: &[String]) -> i32 {
                CompressionLevel::UberCompression, CompressionLevel::DefaultCompression] {
         codecs.push((format!("deflate {lv:?}"), "deflate", Codec::Deflate(DeflateSettings::new(lv))));
     }
-    for l in 1..=9u8 {
+    for l in (1..=9u8).filter(|l| thorough || [1, 5, 9].contains(l)) {
         codecs.push((format!("bzip2 level {l}"), "bzip2", Codec::Bzip2(Bzip2Settings::new(l))));
     }
-    for l in 0..=9u8 {
+    for l in (0..=9u8).filter(|l| thorough || [0, 6, 9].contains(l)) {
         codecs.push((format!("xz level {l}"), "xz", Codec::Xz(XzSettings::new(l))));
     }
-    for l in [0u8, 1, 3, 19, 22, 200] {
+    for l in [0u8, 1, 3, 19, 22, 200].into_iter().filter(|l| thorough || *l < 19) {
         codecs.push((format!("zstandard level {l}"), "zstandard", Codec::Zstandard(ZstandardSettings::new(l))));
     }
+    let timing = std::env::var_os("VERIF_TIMING").is_some();
     for (cname, family, codec) in &codecs {
+        let t0 = std::time::Instant::now();
+        if timing && false { eprintln!("start {cname}"); }
+        let _guard = Timing(cname.clone(), t0, timing);
         for (pname, data) in &pls {
             if !thorough && data.len() > 50_000 && (cname.starts_with("xz level") || cname.starts_with("bzip2 level")) && !cname.ends_with(" 9") && !cname.ends_with(" 1") {
                 continue;
             }
             // the ultra zstd levels are slow on large inputs; keep them for small payloads in the quick tier
-            if !thorough && data.len() > 5_000 && (cname == "zstandard level 22" || cname == "zstandard level 200" || cname == "zstandard level 19") {
-                continue;
+            if data.len() > 5_000 && (cname == "zstandard level 22" || cname == "zstandard level 200") {
+                continue; // ultra levels allocate 128 MiB windows per call: small payloads only
             }
             let case = format!("codec={cname} payload={pname} ({} bytes)", data.len());
             crate::util::begin_case(&case);
@@ -195,6 +199,15 @@ pub fn run(args: &[String]) -> i32 {
     crate::util::end_case();
     out.finish(dir, serde_json::json!({"lim": lim}));
     0
+}
+
+struct Timing(String, std::time::Instant, bool);
+impl Drop for Timing {
+    fn drop(&mut self) {
+        if self.2 {
+            eprintln!("{:>8.2}s {}", self.1.elapsed().as_secs_f64(), self.0);
+        }
+    }
 }
 
 fn crc32fast_of(trailer: &[u8]) -> u32 {
